@@ -41,7 +41,7 @@ reg("C16",
     "any tolerance; with Some(tol) an Ok result satisfies residual <= tol under the scalar's own comparison (so a NaN "
     "residual is never Ok); the test never changes the returned record; sample returns the MatrixError whenever the "
     "routine fails and an Ok sample satisfies the residual bound. Correspondence on definite / zero-pivot / indefinite "
-    "/ NaN / ill-conditioned / underflowing matrices x 8 tolerances; exact-rational residual oracle on the real code.",
+    "/ NaN / ill-conditioned / underflowing matrices x 8 tolerances; exact-rational residual oracle on the real code; the same matrices through the public API of a debug build (debug assertions, overflow checks); rng entry point under the stability test.",
     "NaN clause: ok_no_nan is proved under the explicit law class NaNLaws (NaN propagates through + - * sqrt, NaN<=t false), shown consistent by a model; that Float/f64 satisfy it is IEEE-754 (assumed). Theorems describe the code after fix commits 9f39851, 641a06a.",
     "Lean 4 law-free theorems + differential correspondence + exact rational oracle",
     "DESIGN.md §3 C16")
@@ -54,7 +54,8 @@ reg("C03",
     "end points; Mathlib ReflTransGen); the returned components are exactly the connectivity classes (each the full class of "
     "a seed, pairwise disjoint, covering the subset) and the loop number is the cyclomatic number: loops + touched vertices = "
     "edges + components, for every duplicate-free list of valid edge ids (tree bound by induction over the search rounds). "
-    "Correspondence: every multigraph with <=3/4 edges on 4 vertex slots, all subsets; union-find/Fraction oracle.",
+    "Correspondence: every multigraph with <=3/4 edges on 4 vertex slots, all subsets; union-find/Fraction oracle; at alpha:=R genDod_step (C03Step.lean): omega(g) - omega(g minus e) = w_e - (loop drop) D/2 - dod (spanning lost), the premise of the sector density; "
+    "also chains of 10..12 edges, 17 components, >= 64 externals, signatures of any shape through the public getters, bit-exact table vs the model.",
     "Hash sets modelled as duplicate-free lists (only membership/cardinality is used); f64 rounding of generalized_dod measured against exact rationals.",
     "Lean 4 law-free theorems + exhaustive small-graph correspondence + union-find/Fraction oracle",
     "DESIGN.md §3 C03")
@@ -85,34 +86,32 @@ reg("C06",
     "rest is g without it; it is the FIRST edge in index order whose running sum reaches u (all earlier running sums compare "
     "below u), or the last edge when no running sum reaches u<=1; for every non-empty subgraph and every u<=1 an edge is "
     "selected (no panic) - for every scalar type, hence for IEEE f64 with rounded sums and u one ulp below 1. Correspondence "
-    "on every boundary +-1ulp; exact rational oracle on the real code.",
+    "on every boundary +-1ulp; exact rational oracle on the real code, incl. the whole removal sequence through the public API, double-double coordinates 1e-22 next to a boundary, overflowing J.",
     "Float assumed IEEE; at alpha:=R sampleEdge_interval / sampleEdge_total_real prove that edge e is selected iff u lies in its interval of length p_e and that the fallback is never needed.",
     "Lean 4 law-free theorems + differential correspondence + exact rational oracle",
     "DESIGN.md §3 C06")
 
 reg("C01",
-    "PARTIAL. Lean (alpha:=R): the algebraic reduction of unbiasedness - coordinate groups read disjointly, edge probabilities sum "
-    "to one, rescaling normalises the tropical polynomials, Box-Muller radius identity, the weighted propagator sum at the returned "
-    "momenta equals c^2|q|^2 + (p^T X p - u^T L^-1 u), Jacobian determinant of the momentum map det(cQ^-T)^2 det L = c^(2L), gauge "
-    "invariance of the weight; collected in `reduction`. The integral identity itself needs Schwinger parametrisation, Borinsky's "
-    "sector-density theorem, which are cited, not formalised; three of the measure-theoretic steps ARE proved (Mathlib): the Box-Muller theorem "
-    "(C13.boxMuller_law), the Gaussian law of the loop momenta (C10.momenta_law: centre -L^-1u, covariance (V/2 lambda) L^-1, normalisation "
-    "sqrt(det L)/c^L) the inverse-CDF lemma for an exact quantile function (inverse_cdf_law) and one step of the sector sample (xi_power_law: y = c xi^(1/omega) "
-    "has density omega y^(omega-1)/c^omega on (0,c)); together with the telescoping sector probability C04.orderProb_eq these are the "
-    "building blocks of the sector density; C01Sector.lean assembles them: chain_law (the E-1 nested steps y_k = y_(k-1) xi_k^(1/omega_k) have, as an "
-    "iterated integral over the ordered region, the product of the conditional densities), dens_closed (Abel summation of the exponents), "
-    "dens_tropical (= (prod omega_k) x^(nu-1)/(U_tr^(D/2) V_tr^dod) when omega_k - omega_(k+1) = nu_k - D/2 dL_k - dod dS_k, the table's "
-    "definition of the generalised dod, U_tr/V_tr the products C07.permLoop_trop identifies) and sector_density_times_prob (times the "
-    "sector probability (prod 1/omega_k)/J the omegas cancel: x^(nu-1)/(U_tr^(D/2) V_tr^dod)/I_tr in EVERY sector - Borinsky's sector density as "
-    "a theorem), sector_expectation / tropical_sampling (for ANY test functions: the expectation over all E! removal orders and the uniform numbers = the sum over the "
-    "sectors of the integrals against that one density); C01Table.lean: consistent_along + tropical_sampling_table - the same on the MODEL'S OWN TABLE (omega, loop "
-    "numbers, spanning flags = preEntry, i.e. what generate_from_tropical stores), under one remaining graph fact (a removal lowers the loop number by 0 or 1: hypothesis, checked on the implementation's flags for every subset in C03; "
-    "that it never gains spanning is proved: C03Mono.spanT_mono); that U_tr, V_tr are the MAXIMAL monomials remains cited (C07). C13.components_iid: all D L Gaussian numbers iid N(0,1). Tie to the code: end-to-end correspondence "
-    "of sample on multi-loop/massive/non-trivial routings; supporting fixed-seed Monte Carlo against closed forms (tadpole, bubble, "
-    "two-tadpole product under two routings; mean of jacobian*g = (pi/alpha)^(DL/2) for triangle, sunrise k1+-k2, double triangle, banana).",
-    "Schwinger parametrisation and the maximal-monomial property cited; the 'Consistent' premise of the sector density (a removal lowers the loop number by 0/1, never gains spanning) is checked on the real table flags in C03; Monte Carlo is a statistical supporting test (6 sigma + 0.5%), not a proof.",
-    "Lean 4 reduction theorem (partial) + differential correspondence + closed-form Monte Carlo support",
-    "DESIGN.md §3 C01")
+    "PARTIAL: the identity 'mean of jacobian x g(k) over the hypercube = Feynman integral' is not proved as one theorem; every step of its standard "
+    "derivation except two is. Proved in Lean (alpha:=R, Mathlib, axioms propext/Classical.choice/Quot.sound only): (a) the algebraic reduction - coordinate groups read "
+    "disjointly, edge probabilities sum to one, the rescaling normalises the tropical polynomials, the weighted propagator sum at the returned momenta equals "
+    "c^2|q|^2 + (p^T X p - u^T L^-1 u), Jacobian determinant of the momentum map det(cQ^-T)^2 det L = c^(2L), gauge invariance of the weight (`reduction`); "
+    "(b) the measure-theoretic steps - Box-Muller theorem and the joint law of all D L Gaussian numbers (C13.boxMuller_law, C13.components_iid: iid N(0,1)), the Gaussian law of the "
+    "loop momenta (C10.momenta_law: centre -L^-1 u, covariance (V/2 lambda) L^-1, normalisation sqrt(det L)/c^L), the inverse-CDF lemma for an exact quantile function "
+    "(inverse_cdf_law), one step of the sector sample (xi_power_law); (c) Borinsky's sector density as a theorem (C01Sector.lean): chain_law (the E-1 chained steps "
+    "y_k = y_(k-1) xi_k^(1/omega_k), as an iterated integral over the ordered region, against the product of the conditional densities), dens_closed (Abel summation), dens_tropical "
+    "(= prod omega_k x^(nu-1)/(U_tr^(D/2) V_tr^dod) when omega_k - omega_(k+1) = nu_k - D/2 dL_k - dod dS_k), sector_density_times_prob, sector_expectation, tropical_sampling (for ANY "
+    "test functions the expectation over all E! removal orders - probabilities C04.orderProb - and the uniform numbers equals the sum over the sectors of the integrals against "
+    "x^(nu-1)/(U_tr^(D/2) V_tr^dod)/I_tr); C01Table.lean: consistent_along and tropical_sampling_table - the same for the MODEL'S OWN TABLE (omega, loop numbers, spanning flags, weights = "
+    "preEntry, what generate_from_tropical stores), with 'Consistent' PROVED from C03.genDod_step and C03Mono.spanT_mono (removing an edge never gains the spanning flag). "
+    "Tie to the code: end-to-end correspondence of `sample` (model vs implementation) on multi-loop/massive/non-trivial routings, normalisation oracle (40 digits), rng-entry agreement; "
+    "supporting fixed-seed Monte Carlo against closed forms (tadpole, bubble, two-tadpole product under two routings; mean of jacobian*g = (pi/alpha)^(DL/2) for triangle, sunrise k1+-k2, "
+    "double triangle, banana).",
+    "Cited, not formalised: Schwinger parametrisation (momentum integral = parametric integral) and that U_tr, V_tr are the MAXIMAL monomials of U and F/U (greedy optimality, C07). "
+    "One graph fact remains a hypothesis of tropical_sampling_table: a removal lowers the loop number by 0 or 1 (checked on the implementation's flags for every subset of every small "
+    "multigraph in the C03 check). Exactness of the Gamma quantile is numerical (C12). Monte Carlo is a statistical supporting test (6 sigma + 0.5%), not a proof.",
+    "Lean 4 theorems (partial for the property as a whole) + differential correspondence + exact/40-digit oracles + closed-form Monte Carlo support",
+    "DESIGN.md §8.3 C01")
 
 reg("C02",
     "PARTIAL/conditional. Lean (alpha:=R): a sum of non-negative monomials lies between its largest term and card x largest; "
@@ -223,7 +222,7 @@ reg("C17",
     "operations leave the state unchanged answers every operation of every history and interleaving as a fresh call. That &self "
     "methods cannot change the sampler is Rust's aliasing rule + source audit (no statics/interior mutability/unsafe) + Send+Sync. "
     "Real code: same request twice in one process, reverse order in another process, consecutive near-equal lambda coordinates, "
-    "8/16 threads on a shared sampler, all 8 settings combinations, counting replay RNG, repeated builds.",
+    "8/16 threads on a shared sampler, all 8 settings combinations, counting replay RNG, repeated builds; the default-feature build (no `log`: println! debugging) with print_debug_info off/on against the instrumented build; rng entry vs x-space entry on scripted numbers.",
     "Schedules are sampled; the all-interleavings guarantee rests on Rust's type system and the audit.",
     "Lean 4 theorems + bit-exact replay across histories, processes and threads + source audit",
     "DESIGN.md §3 C17")
@@ -247,7 +246,7 @@ reg("C19",
     "Gamma draw is a parameter and the sample depends on it only through its value at (dod, coordinate 2E-2); u, v and the "
     "decomposition are computed before/independently of the draw. Real generic code: (i) logging scalar - exactly three narrowings "
     "(shape, coordinate 2E-2, tolerance) with debug off, none while computing Feynman parameters; (ii) double-double scalar - L, u, "
-    "inverse, u-vectors, v agree with exact rationals of the double-double Feynman parameters to 1e-24 cond.",
-    "transcendental functions of the double-double type go through f64 (so Feynman parameters themselves are f64-accurate).",
+    "inverse, u-vectors, v agree with exact rationals of the double-double Feynman parameters to 1e-24 cond; (iii) double-double POINTS with non-zero low parts: parameter ratios follow xi^(1/omega) to 1e-26; the matrix routine alone in double-double against exact rationals.",
+    "ln/cos/sin/exp of the harness's double-double type go through f64 (its powf, sqrt and arithmetic are full precision), so Gaussian components are f64-accurate.",
     "Lean 4 theorems (interface without narrowing) + user-scalar instantiations of the real generic code",
     "DESIGN.md §3 C19")
